@@ -238,6 +238,15 @@ func c2fillAll(shape *locExpr, alphabet []*locExpr, f func(e *locExpr)) {
 }
 
 // variants with partial markers on one span at a time
+func c2clone(e *locExpr) *locExpr {
+	c := *e
+	c.subs = nil
+	for _, s := range e.subs {
+		c.subs = append(c.subs, c2clone(s))
+	}
+	return &c
+}
+
 func c2partials(e *locExpr, f func(v *locExpr)) {
 	var spans []*locExpr
 	var collect func(x *locExpr)
@@ -468,7 +477,8 @@ func c02units(tier string) []mc.Unit {
 		var exprs []*locExpr
 		for _, sh := range append(append(locShapes(0, 1, false), locShapes(1, 1, false)...), append(locShapes(1, 2, false), locShapes(2, 2, false)...)...) {
 			c2fillAll(sh, leaves, func(e *locExpr) {
-				c2partials(e, func(v *locExpr) { exprs = append(exprs, v) })
+				exprs = append(exprs, c2clone(e))
+				c2partials(e, func(v *locExpr) { exprs = append(exprs, c2clone(v)) }) // v is e with flags set for the call only
 			})
 		}
 		for _, key := range keys {
